@@ -732,6 +732,15 @@ Theorem C16_checked_numpy_span_is_C10_span
   = eval_text (c10_has ct (Locate.SArr (map tr_label ls))) (c10_locate gl (Locate.SArr (map tr_label ls))) s.
 Proof. exact (eval_text_arr_is_c10 gl ct ls s). Qed.
 
+(* NB on the guards of the next theorem (reviewer-E 1).  0 < s: for s < 0 see C16_label_slice_neg_step_positions /
+   C16_label_slice_negative_step_refuted above.  NoDup and "the lookup answers built-in ints" are hypotheses of C10's own theorem
+   (C10_eval_slice_agrees), which is the last link only: the links proved HERE — C16_label_lookup_is_C10_lookup,
+   C16_label_slice_text_is_C10_bounds, C16_label_slice_step_text_is_C10_bounds, C16_label_slice_positions_are_C10_positions — hold
+   for repeated labels (list.index / the first match) and for numpy.int64 locations too (bump leaves them alone: equation with
+   C10's eval_slice_bounds).  numpy.int64 POSITIONS do not arise on the current tree (fix a094259; pandas get_loc answers built-in
+   ints, slice-valued locations are handled on both sides); if they did, eval() and label indexing would differ
+   (EvalIdxExamples.ex_numpy_int64_stop_would_be_exclusive).  Spans with repeated labels are exercised by the harness (list:
+   first match on both paths; NumPy array: KeyError on both paths). *)
 (* eval('X[`a`:`b`:s]') selects exactly the elements obj['X', a:b:s] returns (inclusive label slice).  Hypotheses: those of
    C10's C10_eval_slice_agrees (lookup meeting C10's specification and answering built-in ints, distinct labels, both ends
    present or open, s > 0), the label texts have no backtick/colon, and each text names its label (as str, else through int()) *)
